@@ -15,4 +15,5 @@ SPEC = {
 def run(ctx):
     bpfdir = verif_bpf.setup(ctx)
     rc = verif.standard_check(ctx, SPEC)
-    return verif_bpf.post(ctx, rc, bpfdir, ["antispoof"])
+    asan = None if ctx.replay else verif_bpf.asan_run(ctx, SPEC, "VERIF_C18_ASAN")
+    return verif_bpf.post(ctx, rc, bpfdir, ["antispoof"], asan)
